@@ -165,10 +165,27 @@ package prunner
 //@   ensures [perm] sameOutside("jobTask.*", jt) && permOf(jt)
 //@   modifies jobTask.*
 
+//@ pure stageName(st *scheduler.Stage, t *jobTask) bool = st.Name == t.Name
+//@ pure stagePlain(st *scheduler.Stage) bool = st.Condition == "" && st.Pipeline == nil
+//@ pure stageDeps(st *scheduler.Stage, t *jobTask) bool = st.DependsOn == t.DependsOn && st.AllowFailure == t.AllowFailure
+//@ pure stageTask(st *scheduler.Stage, t *jobTask) bool = st.Task != nil && st.Task.Name == t.Name && st.Task.AllowFailure == t.AllowFailure
 //@ func buildPipelineGraph
 //@   lockmode any
-//@   trusted graph construction calls upstream taskctl (task.FromCommands, variables, scheduler.NewExecutionGraph); it has no access to runner state
+//@   ensures [C18.reservedName] len(tasks) > 0 && (taskctl.JobIDVariableName in vars) ==> res1 != nil
 //@   modifies nothing
+//@   at call NewExecutionGraph#1: assert [C02.stages] len(stages) == len(tasks) && (forall k :: 0 <= k && k < len(tasks) ==> stageName(stages[k], tasks[k])) && (forall k :: 0 <= k && k < len(tasks) ==> stagePlain(stages[k])) && (forall k :: 0 <= k && k < len(tasks) ==> stageDeps(stages[k], tasks[k])) && (forall k :: 0 <= k && k < len(tasks) ==> stageTask(stages[k], tasks[k]))
+//@   loop 1 invariant [shape] 0 <= $i + 1 && $i + 1 <= len(tasks) && len(stages) == $i + 1 && wf(stages) && (base(stages) == 0 || fresh(base(stages))) && same("jobTask.*") && ($i + 1 > 0 ==> !(taskctl.JobIDVariableName in vars))
+//@   loop 1 invariant [fresh] forall k :: 0 <= k && k <= $i ==> fresh(stages[k]) && allocated(stages[k]) && stages[k] > 0 && fresh(stages[k].Task) && allocated(stages[k].Task) && stages[k].Task > 0
+//@   loop 1 invariant [names] forall k :: 0 <= k && k <= $i ==> stageName(stages[k], tasks[k])
+//@   loop 1 invariant [plain] forall k :: 0 <= k && k <= $i ==> stagePlain(stages[k])
+//@   loop 1 invariant [deps] forall k :: 0 <= k && k <= $i ==> stageDeps(stages[k], tasks[k])
+//@   loop 1 invariant [tasks] forall k :: 0 <= k && k <= $i ==> stageTask(stages[k], tasks[k])
+//@   loop 2 invariant [shape] 0 <= $i1 + 1 && $i1 + 1 < len(tasks) + 1 && len(stages) == $i1 + 1 && wf(stages) && (base(stages) == 0 || fresh(base(stages))) && same("jobTask.*") && t != nil && fresh(t) && allocated(t) && t > 0 && t.Name == tasks[$i1+1].Name && t.AllowFailure == tasks[$i1+1].AllowFailure && (forall k string :: $seen[k] ==> k != taskctl.JobIDVariableName)
+//@   loop 2 invariant [fresh] forall k :: 0 <= k && k <= $i1 ==> fresh(stages[k]) && allocated(stages[k]) && stages[k] > 0 && fresh(stages[k].Task) && allocated(stages[k].Task) && stages[k].Task > 0 && stages[k].Task != t
+//@   loop 2 invariant [names] forall k :: 0 <= k && k <= $i1 ==> stageName(stages[k], tasks[k])
+//@   loop 2 invariant [plain] forall k :: 0 <= k && k <= $i1 ==> stagePlain(stages[k])
+//@   loop 2 invariant [deps] forall k :: 0 <= k && k <= $i1 ==> stageDeps(stages[k], tasks[k])
+//@   loop 2 invariant [tasks] forall k :: 0 <= k && k <= $i1 ==> stageTask(stages[k], tasks[k])
 
 //@ func (*PipelineRunner).startJob
 //@   lockmode W
@@ -502,5 +519,5 @@ package prunner
 //@ property C13: prunner.*/lock[read] prunner.*/lock[write] prunner.*/lockproto[*] prunner.*/call-pre[*.lockmode]* prunner.*/call-pre[*.guard]* prunner.*/call-pre[*.empty]* prunner.*/ensures[unpublished]
 //@ property C15: prunner.*/ensures[C15.*] prunner.(*PipelineRunner).resolveScheduleAction/ensures[range] prunner.(*PipelineRunner).isRunning/loop* prunner.(*PipelineRunner).ReadJob/* prunner.(*PipelineRunner).IterateJobs/ensures* prunner.(*PipelineRunner).ListPipelines/ensures* prunner.(*PipelineRunner).ListPipelines/loop* prunner.(*PipelineJob).isRunning/ensures*
 //@ property C08: prunner.*/assert[C08.*] prunner.(*PipelineRunner).JobCompleted/ensures[C04.verdict] prunner.*/assert[C04.cancelMeansError] prunner.(jobTasks).ByName/*
-//@ property C16: prunner.*/ensures[C16.*] prunner.*/ensures[defs] prunner.(*PipelineRunner).resolveDequeueJobAction/ensures[C03.dequeueDecision] prunner/writers[PipelineJob.Tasks] prunner/writers[PipelineJob.Env] prunner/writers[PipelineJob.Variables] prunner/writers[PipelineJob.StartDelay] prunner/writers[PipelineRunner.defs] prunner.*/call-pre[(*PipelineRunner).startJob.timerDone]* prunner.buildJobTasks/* prunner.toStatus/ensures*
-//@ property C02: prunner.*/call-pre[(*PipelineRunner).startJob.notStarted]* prunner/writers[PipelineJob.Start] prunner.(*PipelineRunner).startJob/ensures[graphError] prunner.(*PipelineRunner).startJob/ensures[T] prunner.*/assert[C01.order] prunner.*/assert[C04.cancelMeansError] prunner.*/call-pre[(*PipelineRunner).startJob.offList]* prunner.(*PipelineRunner).startJobsOnWaitList/*
+//@ property C16: prunner.*/ensures[C16.*] prunner.*/ensures[defs] prunner.(*PipelineRunner).resolveDequeueJobAction/ensures[C03.dequeueDecision] prunner/writers[PipelineJob.Tasks] prunner/writers[PipelineJob.Env] prunner/writers[PipelineJob.Variables] prunner/writers[PipelineJob.StartDelay] prunner/writers[PipelineRunner.defs] prunner.*/call-pre[(*PipelineRunner).startJob.timerDone]* prunner.buildJobTasks/* prunner.toStatus/ensures* prunner.buildPipelineGraph/assert[C02.stages] prunner.buildPipelineGraph/loop*
+//@ property C02: prunner.*/call-pre[(*PipelineRunner).startJob.notStarted]* prunner/writers[PipelineJob.Start] prunner.(*PipelineRunner).startJob/ensures[graphError] prunner.(*PipelineRunner).startJob/ensures[T] prunner.*/assert[C01.order] prunner.*/assert[C04.cancelMeansError] prunner.*/call-pre[(*PipelineRunner).startJob.offList]* prunner.(*PipelineRunner).startJobsOnWaitList/* prunner.buildPipelineGraph/*
